@@ -45,6 +45,20 @@ def run_real_nocopy(events, dt, total):
     return {t: {v: row['s'][v] for v in VARS} for t, row in data.items()}
 
 
+def run_real_twice(events, dt, total):
+    """the SAME TimelineProcess instance in a second engine with a fresh state: every event fires again from time 0"""
+    tl = TimelineProcess({'timeline': copy.deepcopy(events), 'time_step': dt})
+    out = []
+    for _ in range(2):
+        eng = Engine(processes={'timeline': tl, 'holder': Holder()},
+                     topology={'timeline': {'global': ('global',), 's': ('s',)}, 'holder': {'s': ('s',)}},
+                     display_info=False)
+        eng.update(total)
+        data = eng.emitter.get_data()
+        out.append({t: {v: row['s'][v] for v in VARS} for t, row in data.items()})
+    return out
+
+
 def reference(events, dt, total):
     """values of the variables at each emitted time"""
     vals = {v: -1 for v in VARS}
@@ -86,6 +100,15 @@ def check(events, dt, total, shared=False):
             fails.append('no emitted row at t=%s' % t)
         elif got != want:
             fails.append('at t=%s variables are %s, expected %s' % (t, got, want))
+    if not fails and not shared:
+        try:
+            first, second = run_real_twice(before, dt, total)
+            if second != first:
+                t = next((t for t in first if second.get(t) != first[t]), None)
+                fails.append('the same timeline process in a second engine (fresh state): at t=%s variables are %s, in the first '
+                             'run %s: events consumed by the first run were not re-armed' % (t, second.get(t), first.get(t)))
+        except Exception as e:
+            fails.append('second engine with the same timeline process raised %s: %s' % (type(e).__name__, str(e)[:160]))
     return fails[:4]
 
 
